@@ -28,6 +28,19 @@
 #include <sys/mman.h>
 #include <sys/stat.h>
 
+#ifdef ALVERIF_HOOKS
+// verification hook, compiled in only with -DALVERIF_HOOKS: a test harness may
+// define this function to interleave threads between two index table stores
+__attribute__((weak)) void alverif_hook_index_store(int table, int slot);
+#define ALVERIF_INDEX_STORE(table, slot)                                       \
+  do {                                                                         \
+    if (alverif_hook_index_store)                                              \
+      alverif_hook_index_store((table), (slot));                               \
+  } while (0)
+#else
+#define ALVERIF_INDEX_STORE(table, slot) ((void)0)
+#endif
+
 /**
  * called when an instance of @param al is created and maps the index of
  * INSTR_TABLE[] where the first occurrence of each letter of the alphabet to
@@ -39,8 +52,10 @@ static void asm_build_index_tables() {
   char previous_char = 'a' - 1;
   while (INSTR_TABLE[++i].name != NA) {
     if (INSTR_TABLE[i].instr_name[0] != '\0') {
-      if (previous_char != INSTR_TABLE[i].instr_name[0])
+      if (previous_char != INSTR_TABLE[i].instr_name[0]) {
         instr_table_index[INSTR_TABLE[i].instr_name[0] - 'a'] = i;
+        ALVERIF_INDEX_STORE(0, INSTR_TABLE[i].instr_name[0] - 'a');
+      }
       previous_char = INSTR_TABLE[i].instr_name[0];
     }
   }
@@ -50,6 +65,7 @@ static void asm_build_index_tables() {
   while (OPD_FORMAT_TABLE[++i].val != opd_error) {
     if (previous_char != OPD_FORMAT_TABLE[i].str[0]) {
       opd_format_table_index[OPD_FORMAT_TABLE[i].str[0] - 'a'] = i;
+      ALVERIF_INDEX_STORE(1, OPD_FORMAT_TABLE[i].str[0] - 'a');
       previous_char = OPD_FORMAT_TABLE[i].str[0];
     }
   }
